@@ -171,7 +171,7 @@ def interp (env : Env) {Î± : Type} : Prog Î± â†’ World â†’ World Ã— Except Err Î
     match r with
     | .ok g => interp env (k (some g, has)) w2
     | .error e => if catchable e then interp env (k (none, has)) w2 else (w2, .error e)
-  | .opt k, w => interp env (k env.opts) w
+  | .opt k, w => interp env (k env.opts.convertVoidToZeroParams) w
   | .debug m k, w => interp env k (if env.opts.verbose then { w with debugLog := w.debugLog ++ [m] } else w)
   | .note t k, w => interp env k { w with mainTok := t }
   | .fail e, w => (w, .error e)
